@@ -55,10 +55,17 @@ def _kk_job(a):
         return r
     S.suggest_num_RC = wrapper
     try:
-        if kind == "mock":
+        if kind in ("mock", "mock-exploratory"):
             ds = generate_mock_data(spec, noise=noise, seed=seed)[0]
         else:
             ds = _add_noise(simulate_spectrum(parse_cdc(spec), np.logspace(5, -2, 71)), noise=noise, seed=seed)
+        if kind == "mock-exploratory":
+            # the other default entry point: all candidate fits of both representations plus the suggestion
+            from pyimpspec.analysis.kramers_kronig import perform_exploratory_kramers_kronig_tests
+            tests_, sug = perform_exploratory_kramers_kronig_tests(ds, num_procs=1)
+            r = sug[0]
+            return {"ok": True, "num_RC": int(r.num_RC), "pct": float(r.get_estimated_percent_noise()), "chisqr": float(r.pseudo_chisqr), "admittance": bool(r.admittance),
+                    "limits": [[int(sug[2]), int(sug[3])]], "n_suggestions": 1, "log_F_ext": float(r.get_log_F_ext())}
         r = perform_kramers_kronig_test(ds, num_procs=1)
         hit = [(lo, hi) for (t, lo, hi) in rec if t is r]
         return {"ok": True, "num_RC": int(r.num_RC), "pct": float(r.get_estimated_percent_noise()), "chisqr": float(r.pseudo_chisqr), "admittance": bool(r.admittance),
@@ -317,6 +324,12 @@ def run(ctx):
         cdc, noise, seed = ladder(rnd), rnd.choice(NOISES), rnd.randrange(10 ** 6)
         jobs.append(("cdc", cdc, noise, seed))
         meta.append(("noise", cdc, noise, seed))
+    # the exploratory entry point with default settings (both representations, optimised extension): the spectra only the admittance
+    # representation can describe, and a few others
+    for ident in ["CIRCUIT_8", "CIRCUIT_9"] + rnd.sample([f"CIRCUIT_{i}" for i in (1, 2, 3, 4, 5, 6, 7, 10, 11)], 6 if big else 2):
+        noise, seed = rnd.choice([0.05, 0.1, 0.5]), rnd.randrange(10 ** 6)
+        jobs.append(("mock-exploratory", ident, noise, seed))
+        meta.append(("noise", ident + " (exploratory)", noise, seed))
     med_circuits = sorted(BASELINE_MEDIAN) if big else rnd.sample(sorted(BASELINE_MEDIAN), 10)
     for ident in med_circuits:
         for _ in range(5):
